@@ -116,8 +116,14 @@ func HandleRequest(data []byte, req Requester) error {
 	err := json.Unmarshal(data, r)
 	if err != nil {
 		// A request with a valid ID, but with other fields of wrong type,
-		// still gets a response.
-		if r.ID != nil {
+		// still gets a response. The ID is decoded on its own: the failed
+		// decoding leaves a zero ID behind also when the ID is what is invalid.
+		var idr struct {
+			ID *uint64 `json:"id"`
+		}
+		iderr := json.Unmarshal(data, &idr)
+		if iderr == nil && idr.ID != nil {
+			r.ID = idr.ID
 			req.Reply(r.ErrorResponse(reserr.ErrInvalidRequest))
 			return nil
 		}
